@@ -113,14 +113,32 @@ pub fn cases(f: &F, max_simultaneous: usize, skip_atoms: bool) -> Vec<(F, Vec<(u
                 }
             }
         }
-        let mut g = f.clone();
-        let mut subs = vec![];
-        for (w, &i) in idx.iter().enumerate() {
-            let (p, d) = &occ[i];
-            subs.push((w as u8, shift(get(f, p), *d)));
-            g = replace(&g, p, &F::Wild(w as u8));
+        // variant A: a fresh wild-card per replaced occurrence; variant B: occurrences of the same
+        // sub-formula share one wild-card label (the label is then requested several times)
+        for share in [false, true] {
+            let mut g = f.clone();
+            let mut subs: Vec<(u8, F)> = vec![];
+            let mut shared_any = false;
+            for &i in idx.iter() {
+                let (p, d) = &occ[i];
+                let sub = shift(get(f, p), *d);
+                let w = match subs.iter().find(|(_, s)| share && *s == sub) {
+                    Some((w, _)) => {
+                        shared_any = true;
+                        *w
+                    }
+                    None => {
+                        let w = subs.len() as u8;
+                        subs.push((w, sub));
+                        w
+                    }
+                };
+                g = replace(&g, p, &F::Wild(w));
+            }
+            if !share || shared_any {
+                out.push((g, subs));
+            }
         }
-        out.push((g, subs));
     };
     for a in 0..n {
         pick(&[a]);
@@ -292,7 +310,7 @@ pub fn run(tier: &str) -> Result<Report, String> {
         crate::sem::note_network(&mut rep, b);
         let ctx = NetCtx::new(b.clone(), Labels::default(), "none");
         let mut g = Gen::new(Alphabet::plain(ctx.nprops(), 3));
-        let mut fs = g.closed_up_to(m);
+        let mut fs = g.closed_up_to(if tier == "quick" && ["con2", "asy2"].contains(&b.name.as_str()) { 4 } else { m });
         fs.extend(templates(&ctx.user, false, pool));
         let res: Vec<(u64, Option<Violation>)> = fs
             .par_iter()
@@ -357,6 +375,6 @@ pub fn run(tier: &str) -> Result<Report, String> {
     rep.evaluations = total;
     rep.distinct_nontrivial = total;
     rep.sample(json!({"formula": "((!{x}: (AX {x})) & (EF a))", "case": "(%p% & (EF %q%)) with p := result of (!{x}: (AX {x})), q := result of a", "oracle": "raw result must equal (BDD equality) model_check_formula_dirty of the original"}));
-    rep.rule = format!("for every closed plain formula with <= {m} nodes and every plain template formula on the core networks {which:?}: every non-empty antichain of at most 3 closed proper sub-formula occurrences (atoms included) is replaced by wild-cards bound to model_check_formula_dirty of the sub-formula, and the extended evaluation must equal the plain result as a set; plus the identity cases (plain formula through the extended entry points with an empty context). On the bundled models {:?}: benchmark-style formulae with all antichains of <= 2 non-atomic closed sub-formulae. distinct_nontrivial = number of substitution cases (each a distinct (formula, replaced occurrences) pair)", bigmodels::family(tier));
+    rep.rule = format!("for every closed plain formula with <= {m} nodes (quick: 4 on con2 and asy2) and every plain template formula on the core networks {which:?}: every non-empty antichain of at most 3 closed proper sub-formula occurrences (atoms included) is replaced by wild-cards bound to model_check_formula_dirty of the sub-formula (once with a fresh wild-card per occurrence, once with one shared wild-card for equal sub-formulae), and the extended evaluation must equal the plain result as a set; plus the identity cases (plain formula through the extended entry points with an empty context). On the bundled models {:?}: benchmark-style formulae with all antichains of <= 2 non-atomic closed sub-formulae. distinct_nontrivial = number of substitution cases (each a distinct (formula, replaced occurrences) pair)", bigmodels::family(tier));
     Ok(rep)
 }
